@@ -18,6 +18,10 @@
 (* until a clause of the property itself is broken.                          *)
 EXTENDS Lifecycle, Json, IOUtils, TLCExt
 
+CONSTANT Pid      \* "C09" | "C10": the property this run reports.  Its clauses are evaluated, the
+                  \* sister property's are not (they are reported by the sister's own run over
+                  \* its own corpus); see Follow below.
+
 Traces == JsonDeserialize(IOEnv.TRACE_FILE)
 
 VARIABLES tid, l, verdict
@@ -83,50 +87,63 @@ Clauses(pre, o, x) ==
       wret  == IF o.fk = "exit" THEN (o.ret = "int" /\ o.rv = o.fv)
                ELSE IF o.fk = "sig" THEN (IF pre.tr = "popen" THEN o.ret = "int" /\ o.rv = 0 - o.fv ELSE o.ret = "None")
                ELSE FALSE
-  IN <<
-   \* ---- C10: the old descriptor number, liveness claims ----
-   << ~(o.touched /\ ~pre.touched), "C10:io-after-close" >>,
-   << (o.op \in IoOps /\ pre.closed) => o.ret \in Errors, "C10:io-after-close-no-error" >>,
-   << ~(pty /\ o.op = "IsAlive" /\ o.ret = "True" /\ o.proc = "reaped"), "C10:alive-after-reaped" >>,
-   << ~(pty /\ there /\ o.term /\ o.proc \in {"run", "stop"}), "C10:terminated-while-running" >>,
-   \* ---- C09 ----
-   << obsd => ~(o.es # None /\ o.ss # None), "C09:both-status-set" >>,
-   << obsd => (o.es # None \/ o.ss # None), "C09:no-status-set" >>,
-   << (obsd /\ o.fk = "exit") => (o.es = o.fv /\ o.ss = None), "C09:wrong-exitstatus" >>,
-   << (obsd /\ o.fk = "sig") => (o.ss = o.fv /\ o.es = None), "C09:wrong-signalstatus" >>,
-   << obsd => o.fk # "none", "C09:status-of-a-living-child" >>,
-   << obsd => o.sk # "none", "C09:status-not-set" >>,
-   << obsd => (o.sk = o.fk /\ o.sv = o.fv), "C09:status-decodes-differently" >>,
-   << obsd => o.term, "C09:terminated-false-after-observed-death" >>,
-   << (child /\ there /\ pre.obs) => (o.es = pre.es /\ o.ss = pre.ss /\ o.sk = pre.sk /\ o.sv = pre.sv /\ o.term),
-      "C09:status-changed" >>,
-   << (child /\ o.op = "Wait" /\ ~Raised(o)) => wret, "C09:wait-return" >>,
-   \* ---- C10: force, idempotence, leaks ----
-   << force => o.proc \notin {"run", "stop"}, "C10:force-left-alive" >>,
-   << force => o.proc # "zombie", "C10:zombie-leak" >>,
-   << force => o.ret \in {"True", "None", "Boom"}, "C10:force-failed" >>,
-   << (closing /\ done) => (o.ret = (IF o.op = "WithExit" /\ o.arg = 1 THEN "Boom" ELSE "None")), "C10:close-not-idempotent" >>,
-   << (closing /\ done) => (o.closed /\ o.fdv = pre.fdv /\ o.eof = pre.eof /\ o.proc = pre.proc /\ o.fd = pre.fd),
-      "C10:close-not-idempotent" >>,
-   << (closing \/ (o.op = "Del" /\ pty)) => o.fd # "open", "C10:fd-leak" >>,
-   << (there /\ o.closed) => o.fd # "open", "C10:fd-leak" >>,
-   << (pty /\ ((closing /\ ~Raised(o)) \/ o.op = "Del")) => o.proc = "reaped", "C10:zombie-leak" >>,
-   \* ---- the model explains everything else ----
-   << o.ret = x.r, "model:ret" >>,
-   << o.rv = x.v, "model:ret-value" >>,
-   << child => o.proc = st.proc, "model:proc" >>,
-   << child => (o.fk = st.fk /\ o.fv = st.fv), "model:fate" >>,
-   << o.fd = st.fd, "model:fd" >>,
-   << o.gone = st.gone, "model:gone" >>,
-   << (there /\ child) => o.term = st.term, "model:terminated" >>,
-   << there => o.closed = st.closed, "model:closed" >>,
-   << there => o.fdv = st.fdv, "model:child_fd" >>,
-   << (there /\ child) => (o.es = st.es /\ o.ss = st.ss), "model:exitstatus" >>,
-   << (there /\ child) => (o.sk = st.sk /\ o.sv = st.sv), "model:status" >>,
-   << there => o.eof = st.eof, "model:flag_eof" >>,
-   << (there /\ pty) => o.pclosed = st.pclosed, "model:ptyprocess-closed" >>,
-   << o.touched = st.touched, "model:touched" >>
-  >>
+      c09 == <<
+        << obsd => ~(o.es # None /\ o.ss # None), "C09:both-status-set" >>,
+        << obsd => (o.es # None \/ o.ss # None), "C09:no-status-set" >>,
+        << (obsd /\ o.fk = "exit") => (o.es = o.fv /\ o.ss = None), "C09:wrong-exitstatus" >>,
+        << (obsd /\ o.fk = "sig") => (o.ss = o.fv /\ o.es = None), "C09:wrong-signalstatus" >>,
+        << obsd => o.fk # "none", "C09:status-of-a-living-child" >>,
+        << obsd => o.sk # "none", "C09:status-not-set" >>,
+        << obsd => (o.sk = o.fk /\ o.sv = o.fv), "C09:status-decodes-differently" >>,
+        << obsd => o.term, "C09:terminated-not-set" >>,
+        << (child /\ there /\ pre.obs) => (o.es = pre.es /\ o.ss = pre.ss /\ o.sk = pre.sk /\ o.sv = pre.sv /\ o.term),
+           "C09:status-changed" >>,
+        << (child /\ o.op = "Wait" /\ ~Raised(o)) => wret, "C09:wait-return" >>,
+        \* ---- the model explains the status fields ----
+        << (there /\ child) => o.term = st.term, "model:terminated" >>,
+        << (there /\ child) => (o.es = st.es /\ o.ss = st.ss), "model:exitstatus" >>,
+        << (there /\ child) => (o.sk = st.sk /\ o.sv = st.sv), "model:status" >> >>
+      c10 == <<
+        \* ---- the old descriptor number, liveness claims ----
+        << ~(o.touched /\ ~pre.touched), "C10:io-after-close" >>,
+        << (o.op \in IoOps /\ pre.closed) => o.ret \in Errors, "C10:io-after-close-no-error" >>,
+        << ~(pty /\ o.op = "IsAlive" /\ o.ret = "True" /\ o.proc = "reaped"), "C10:alive-after-reaped" >>,
+        << ~(pty /\ there /\ o.term /\ o.proc \in {"run", "stop"}), "C10:terminated-while-running" >>,
+        \* ---- force, idempotence, leaks ----
+        << force => o.proc \notin {"run", "stop"}, "C10:force-left-alive" >>,
+        << force => o.proc # "zombie", "C10:zombie-leak" >>,
+        << force => o.ret \in {"True", "None", "Boom"}, "C10:force-failed" >>,
+        << (closing /\ done) => (o.ret = (IF o.op = "WithExit" /\ o.arg = 1 THEN "Boom" ELSE "None")), "C10:close-not-idempotent" >>,
+        << (closing /\ done) => (o.closed /\ o.fdv = pre.fdv /\ o.eof = pre.eof /\ o.proc = pre.proc /\ o.fd = pre.fd),
+           "C10:close-not-idempotent" >>,
+        << (closing \/ (o.op = "Del" /\ pty)) => o.fd # "open", "C10:fd-leak" >>,
+        << (there /\ o.closed) => o.fd # "open", "C10:fd-leak" >>,
+        << (pty /\ o.dfd >= 0) => o.dfd <= (IF o.fd = "open" THEN 1 ELSE 0), "C10:fd-leak" >>,
+        << (pty /\ ((closing /\ ~Raised(o)) \/ o.op = "Del")) => o.proc = "reaped", "C10:zombie-leak" >> >>
+      model == <<
+        << o.ret = x.r, "model:ret" >>,
+        << o.rv = x.v, "model:ret-value" >>,
+        << child => o.proc = st.proc, "model:proc" >>,
+        << child => (o.fk = st.fk /\ o.fv = st.fv), "model:fate" >>,
+        << o.fd = st.fd, "model:fd" >>,
+        << o.gone = st.gone, "model:gone" >>,
+        << there => o.closed = st.closed, "model:closed" >>,
+        << there => o.fdv = st.fdv, "model:child_fd" >>,
+        << there => o.eof = st.eof, "model:flag_eof" >>,
+        << (there /\ pty) => o.pclosed = st.pclosed, "model:ptyprocess-closed" >>,
+        << (pty /\ o.dfd >= 0) => o.dfd = (IF o.fd = "open" THEN 1 ELSE 0), "model:descriptor-count" >>,
+        << Pid = "C10" => o.touched = st.touched, "model:touched" >> >>
+  IN IF Pid = "C09" THEN c09 \o model ELSE c10 \o model
+
+\* The run for C10 does not judge the status fields (C09's business, judged by C09's own run):
+\* the model adopts what the object says about them and goes on, so that a wrong or missing status
+\* cannot hide a later lie about liveness or a leak.
+Follow(st, o) ==
+  IF Pid = "C10" /\ ~o.gone /\ st.tr \in ChildTransports
+  THEN [st EXCEPT !.term = o.term, !.es = o.es, !.ss = o.ss, !.sk = o.sk, !.sv = o.sv,
+                  !.obs = (o.es # None \/ o.ss # None)]
+  ELSE IF Pid = "C09" THEN [st EXCEPT !.touched = o.touched]      \* C10's business
+  ELSE st
 
 TOp ==
   /\ THas("op")
@@ -135,12 +152,12 @@ TOp ==
      ELSE LET x == Pick(X, E)
               v == FirstFailing(Clauses(s, E, x))
           IN /\ verdict' = v
-             /\ s' = IF v = "ok" THEN x.st ELSE s
+             /\ s' = IF v = "ok" THEN Follow(x.st, E) ELSE s
   /\ Step
 
 TEnd ==
   /\ THas("end")
-  /\ verdict' = FirstFailing(<<
+  /\ verdict' = IF Pid # "C10" THEN "ok" ELSE FirstFailing(<<
         << E.dfds <= 0, "C10:fd-leak" >>,
         << E.zomb <= 0, "C10:zombie-leak" >>,
         << s.tr = "pty" => E.proc = "reaped", "C10:zombie-leak" >>,
@@ -151,7 +168,7 @@ TEnd ==
 \* run(..., withexitstatus=True) returned (output, exitstatus)
 TRunRet ==
   /\ THas("runret")
-  /\ verdict' = FirstFailing(<<
+  /\ verdict' = IF Pid # "C09" THEN "ok" ELSE FirstFailing(<<
         << IF s.fk = "exit" THEN (~E.isnone /\ E.rv = s.fv) ELSE E.isnone, "C09:run-exitstatus" >>,
         << E.rv = s.es, "C09:run-exitstatus" >> >>)
   /\ s' = s
